@@ -1496,7 +1496,12 @@ write_gvar_data(Relocation *cur, Initializer *init, Type *ty, char *buf, int off
 
         char *loc = buf + offset + mem->offset;
         uint64_t oldval = read_buf(loc, mem->ty->size);
-        uint64_t newval = eval(expr);
+        add_type(expr);
+        uint64_t newval;
+        if (is_flonum(expr->ty) && mem->ty->is_unsigned && mem->ty->size == 8)
+          newval = (uint64_t)eval_double(expr);
+        else
+          newval = eval(expr);
         if (mem->ty->kind == TY_BOOL)
           newval = is_flonum(expr->ty) ? eval_double(expr) != 0 : newval != 0;
         uint64_t mask = (mem->bit_width == 64) ? -1UL : (1UL << mem->bit_width) - 1;
@@ -1532,6 +1537,13 @@ write_gvar_data(Relocation *cur, Initializer *init, Type *ty, char *buf, int off
 
   if (ty->kind == TY_LDOUBLE) {
     *(long double *)(buf + offset) = eval_double(init->expr);
+    return cur;
+  }
+
+  // A floating value of 2^63 or more is in range only for unsigned long.
+  add_type(init->expr);
+  if (is_flonum(init->expr->ty) && ty->is_unsigned && ty->size == 8) {
+    write_buf(buf + offset, (uint64_t)eval_double(init->expr), 8);
     return cur;
   }
 
